@@ -12,13 +12,14 @@ var props = map[string]func(o *Out){}
 
 func main() {
 	if len(os.Args) >= 3 && os.Args[1] == "replay" {
-		// harness replay <op> <args...>: evaluate one case on the implementation
-		f, ok := ops[os.Args[2]]
+		// harness replay "<case line>": evaluate one case on the implementation
+		parts := splitArgs(os.Args[2])
+		f, ok := ops[parts[0]]
 		if !ok {
-			fmt.Fprintln(os.Stderr, "unknown op", os.Args[2])
+			fmt.Fprintln(os.Stderr, "unknown op", parts[0])
 			os.Exit(2)
 		}
-		fmt.Println(guard(func() string { return f(os.Args[3:]) }))
+		fmt.Println(guard(func() string { return f(parts[1:]) }))
 		return
 	}
 	if len(os.Args) != 5 {
